@@ -355,3 +355,77 @@ func (s *Session) instantiationsOf(g *ssa.Function) []*ssa.Function {
 	sort.Slice(out, func(i, j int) bool { return out[i].Name() < out[j].Name() })
 	return out
 }
+
+type sweepSite struct {
+	key    string
+	callee string
+	pos    string
+}
+
+// sweepSites lists every call of the swept callees made in the package (functions, methods, closures).
+func (s *Session) sweepSites(sd *SweepDecl) []sweepSite {
+	want := map[string]bool{}
+	for _, c := range sd.Callees {
+		want[c] = true
+	}
+	tp := s.allTypes[sd.Pkg]
+	if tp == nil {
+		return nil
+	}
+	sp := s.prog.Package(tp)
+	if sp == nil {
+		return nil
+	}
+	var out []sweepSite
+	seen := map[*ssa.Function]bool{}
+	var visit func(f *ssa.Function)
+	visit = func(f *ssa.Function) {
+		if f == nil || seen[f] || f.Blocks == nil {
+			return
+		}
+		seen[f] = true
+		if f.Synthetic != "" && f.Parent() == nil {
+			return
+		}
+		for _, b := range f.Blocks {
+			for _, ins := range b.Instrs {
+				ci, ok := ins.(ssa.CallInstruction)
+				if !ok {
+					continue
+				}
+				cc := ci.Common()
+				full := ""
+				if callee := cc.StaticCallee(); callee != nil {
+					full = fullName(callee)
+				} else if cc.IsInvoke() {
+					full = "(" + types.TypeString(cc.Value.Type(), nil) + ")." + cc.Method.Name()
+				}
+				if full != "" && want[full] {
+					p := s.pos(ins.Pos())
+					if !p.IsValid() {
+						p = s.pos(f.Pos())
+					}
+					out = append(out, sweepSite{key: fmt.Sprintf("%s@%s:%d", full, f.Name(), p.Line), callee: full, pos: fmt.Sprintf("%s:%d", strings.TrimPrefix(p.Filename, s.repo+"/"), p.Line)})
+				}
+			}
+		}
+		for _, af := range f.AnonFuncs {
+			visit(af)
+		}
+	}
+	for _, m := range sp.Members {
+		switch m := m.(type) {
+		case *ssa.Function:
+			visit(m)
+		case *ssa.Type:
+			for _, t := range []types.Type{m.Type(), types.NewPointer(m.Type())} {
+				ms := s.prog.MethodSets.MethodSet(t)
+				for i := 0; i < ms.Len(); i++ {
+					visit(s.prog.MethodValue(ms.At(i)))
+				}
+			}
+		}
+	}
+	sort.Slice(out, func(i, j int) bool { return out[i].key < out[j].key })
+	return out
+}
